@@ -2,6 +2,7 @@ use crate::driver::PropMeta;
 
 pub mod c01;
 pub mod c02;
+pub mod c02r;
 pub mod c03;
 pub mod c04;
 pub mod c05;
